@@ -33,7 +33,7 @@ LEVEL_NOTE = ("PARTIAL liveness: relative to the modelled tokio semantics (notif
               "waiters, the writer) holds it across steps; hand-off of the TRACKER lock to queued waiters is not explored (the harness never polls a "
               "submitter whose track would queue). "
               "Trusted: Coq kernel + vm_compute; hand-written model; harness/python glue; correspondence is differential testing; the mt/paused/stress "
-              "runs are timing based (a miss is possible, a false alarm is not: they give up only after 5 s / 20 s without any progress).")
+              "runs are timing based (a miss is possible, a false alarm is not: they give up only after 5 s (mt) or 20 s (paused, stress) without any progress).")
 ASSUMPTIONS = ["tokio Notify: notify_waiters() wakes exactly the Notified futures created (and enabled) before the call",
                "tokio Mutex/RwLock: mutual exclusion; an uncontended acquisition succeeds immediately; a pending lock() is granted after the holder's guard is dropped; guards release on drop",
                "the channel into the pipeline is FIFO and never full or closed; the pipeline hands every received event to mark_as_done exactly once"]
